@@ -474,6 +474,28 @@ class Effects:
                         and root.id not in w.defs and self._is_module_global(f.module, root.id):
                     s.global_writes.add(root.id)
                     s.global_sites.append((e.line, src(e.stmt)[:120]))
+        # `param += [..]` on a list / set / dict / array parameter updates the caller's object in
+        # place (list.__iadd__ extends): a mutation, not a rebinding
+        CONTAINERISH = ('List', 'list', 'Set', 'set', 'Dict', 'dict', 'ndarray', 'Sequence',
+                        'Collection', 'Iterable', 'Deque', 'deque')
+        ann = {a.arg: (src(a.annotation) if a.annotation is not None else '')
+               for a in f.params()}
+        for name, ds in w.defs.items():
+            if name not in w.params:
+                continue
+            for dd in ds:
+                if dd[0] != 'aug':
+                    continue
+                stmt = dd[1]
+                rhs = stmt.value if isinstance(stmt, ast.AugAssign) else None
+                boxy = any(k in ann.get(name, '') for k in CONTAINERISH) or \
+                    isinstance(rhs, (ast.List, ast.Set, ast.Dict, ast.ListComp, ast.SetComp))
+                rebound = [d2 for d2 in ds if d2[0] == 'value' and d2[2] < dd[2]
+                           and d2[3] == ('true',) and not d2[4]]
+                if boxy and not rebound and ann.get(name, '') not in IMMUTABLE_ANNOTATIONS:
+                    s.mut_params.add(name)
+                    s.mut_sites.setdefault(name, []).append(
+                        (getattr(stmt, 'lineno', f.node.lineno), src(stmt)[:120]))
         for name, ds in w.defs.items():
             if name in gl:
                 s.global_writes.add(name)
